@@ -26,16 +26,20 @@ MANIFEST = {
                   "C19_avcrec_roundtrip_exact: trailing chroma/bit-depth info for every profile except 66/77/88; C19_hvcrec_roundtrip: "
                   "all 17 fields and every NAL unit array); the record put into the sample entry by a successful Set{AVC,HEVC}Descriptor "
                   "is the one derived from the SPS and survives encode -> decode (C19_descriptor_avc_record, C19_descriptor_hevc_record). "
-                  "Whole init in the C01 box model: for every history the tree that is encoded passes File.AddChild's fragmented-init "
-                  "test and holds a trex for every track id (C19_built_fragmented_trex); the decision procedure roundtrip_ok (encode "
-                  "with C01's encoder, decode with C01's decoder, EQUAL tree, fragmented, trex) is sound "
-                  "(C19_roundtrip_checker_sound) and is evaluated, extracted, on every correspondence case. C19_roundtrip is still "
-                  "PARTIAL: proved over a complete small scope of 271 histories (C19_roundtrip_partial: one or two tracks, seven media "
-                  "types, three kinds of language tag, every descriptor kind); for arbitrary op sequences the equality of "
-                  "the decoded tree and fragment decoding are explored (model: roundtrip_ok on every case; real code: search), not "
-                  "proved: the argument-carrying boxes mvhd, trex, tkhd, mdhd, stsd and the Visual/AudioSampleEntry prefixes do have "
-                  "print-then-parse theorems for ALL in-range values (C19_box_roundtrip_*), what is missing is their composition "
-                  "through C01's generic decode_box (header, dispatch tables, child loops). Refutations: mp4a sample rate for "
+                  "Whole init in the C01 box model (tree_of: every box the constructors build, with C01's leaf/container constructors; its "
+                  "encoding is compared byte for byte with the real InitSegment.Encode): C19_roundtrip is now PROVED there for every "
+                  "op sequence and every SPS parser: if the final state's values fit their fields (args_okb) and the sizes fit 32 bits "
+                  "(enc_fits), C01's decoder applied to C01's encoding returns a tree EQUAL to the one encoded, the decoded file passes "
+                  "File.AddChild's fragmented-init test as soon as there is a track and GetTrex finds a trex for every track id; "
+                  "C19_print_then_parse is the general converse of C01_tree for constructed trees (any tree of well-formed parts decodes "
+                  "from its encoding to itself), with print-then-parse lemmas for all in-range values of every leaf kind of an init "
+                  "(C19_box_roundtrip_* and C19LeafPPProofs: mvhd trex tkhd mdhd hdlr elng vmhd smhd nmhd sthd dref url stsd stts stsc "
+                  "stsz stco ftyp avcC hvcC, Visual/AudioSampleEntry prefixes); C19_built_fragmented_trex, C19_roundtrip_checker_sound "
+                  "and C19_roundtrip_partial (271 histories decided by computation, no hypothesis on the state) remain as independent "
+                  "confirmations, and roundtrip_ok + the hypotheses of C19_roundtrip are evaluated, extracted, on every correspondence "
+                  "case (all satisfy them). Still only explored (search on the real code): typed decoding of esds/dac3/dec3/wvtt/stpp "
+                  "(opaque payloads in C01's model; stpp and the records have their own theorems) and decoding media fragments against "
+                  "the init beyond the trex lookup. Refutations: mp4a sample rate for "
                   "96000 Hz (known finding), one-byte elng tag, AddEmptyTrack on decoded inits (outside the quantifier).",
     "level_note": "Trusted: Coq kernel, extraction (ExtrOcamlBasic), OCaml/Go glue; the SPS parsers are arguments of the model "
                   "(their answers are taken from the real parsers in the correspondence; their correctness is C15's property); "
@@ -115,6 +119,8 @@ def run(ctx):
     lines = cases.splitlines()
     res = common.run_model(model, cases)
     mism = [l for l in res if not l.startswith("OK ")]
+    hyp = sum(1 for l in res if l.endswith(" hyp"))
+    nohyp = sum(1 for l in res if l.endswith(" nohyp"))
     distinct = len(set(l.split("\t", 2)[2] for l in lines if l.count("\t") >= 2))
     outcomes = {"all_ok": 0, "with_error": 0, "with_panic": 0}
     kinds = {k: sum(1 for l in lines if l.startswith(k + "\t")) for k in ("S", "I", "M", "L", "P", "RA", "DA", "RH", "DH")}
@@ -131,7 +137,8 @@ def run(ctx):
     ctx.cov["evaluations"] += len(lines)
     ctx.cov["distinct_nontrivial"] += distinct
     ctx.notes["correspondence"] = {
-        "cases": len(lines), "mismatches": len(mism), "distinct_cases": distinct, "histories_by_outcome": outcomes, "kinds": kinds,
+        "cases": len(lines), "mismatches": len(mism),
+        "init_trees_satisfying_the_hypotheses_of_C19_roundtrip": hyp, "init_trees_outside_them": nohyp, "distinct_cases": distinct, "histories_by_outcome": outcomes, "kinds": kinds,
         "distribution": "exhaustive: every media type (7 supported, 6 handler-style, 4 unsupported) x 15 language tags (length 2,3,5,6,8,10 "
                         "incl. en-US, zh-Hant, upper case) one track; every ordered pair of media types; every AAC object type x "
                         "standard frequency; every acmod x lfeon x fscod. Random: %d in-scope histories (0-5 tracks, 0-2 descriptors "
